@@ -82,6 +82,53 @@ def explore(B, spec, assume, profile):
     return r, panics, n_ok, n_err
 
 
+WORK_LIMIT = 10 ** 9
+
+
+def nesting_shapes(d):
+    return {
+        "left": "( " * d + "-true )" + " -true )" * (d - 1),
+        "right": " ".join(["( -true"] * d) + " )" * d,
+        "both": "( -true " * d + "-false" + " -print )" * d,
+        "centre": "( " * d + "-true" + " )" * d,
+        "left-or": "( " * d + "-true )" + " -o -false )" * (d - 1),
+        "left-comma": "( " * d + "-true )" + " , -print )" * (d - 1),
+        "left-and": "( " * d + "-true )" + " -a -name x )" * (d - 1),
+        "not": "! ( " * d + "-true" + " )" * d,
+        "not-left": "( ! " * d + "-true )" + " -o ! -false )" * (d - 1),
+        "unclosed": "( " * d + "-true",
+        "left-unclosed": "( " * d + "-true )" + " -true )" * (d - 2) + " -true",
+        "extra-close": "( " * d + "-true" + " )" * (d + 1),
+        "dangling": "( " * d + "-true )" + " -o )" * (d - 1),
+    }
+
+
+def nesting_work(B, rep, tier, samples):
+    """Termination within the nesting bound (64): concrete inputs of nested groups in every position (enumeration of shapes, not
+    a solver verdict).  The packrat model runs each (parser function, position) once but accounts for the activations the real
+    parser performs; a parser that re-parses a group per alternative doubles the count per level.  More than WORK_LIMIT activations
+    for an input under 1 KiB is reported as non-termination after the native build failed to answer within 20 s."""
+    import subprocess
+    worst = (0, None)
+    for d in ((24, 64) if tier == "quick" else (8, 16, 24, 32, 48, 64)):
+        for shape, text in nesting_shapes(d).items():
+            t = time.time()
+            r = B.parse([text])
+            w = r.I.winnow.work
+            rep.query("nesting:%s:d%d:work<=%d" % (shape, d, WORK_LIMIT), "unsat" if w <= WORK_LIMIT else "sat", time.time() - t, work=w, input_bytes=len(text))
+            worst = max(worst, (w, "%s d=%d" % (shape, d)))
+            if w <= WORK_LIMIT:
+                continue
+            try:
+                B.ctx.run_native([text], "debug", timeout=20)
+                rep.inconclusive.append("nesting %s depth %d: %d parser activations in the model, but the native build answers within 20 s" % (shape, d, w))
+            except subprocess.TimeoutExpired:
+                rep.violation("non-termination:nested-groups", "input of %d bytes, nesting depth %d (%s): %.3g parser-function activations; the native debug build "
+                              "gives no answer within 20 s" % (len(text), d, shape, float(w)), dict(input=text, timeout_s=20))
+                return
+    samples.append(dict(family="nesting", worst_work=worst[0], worst_case=worst[1], limit=WORK_LIMIT))
+
+
 def run(ctx, rep, tier):
     B = Bench(ctx, rep)
     known = {k["class"] for k in vlib.known_for(PID)}
@@ -99,6 +146,8 @@ def run(ctx, rep, tier):
     not_decided = []
     # the families of the quick tier first, then the thorough-only ones: the CPU budget then truncates the extras, never the core
     fams = [f for f in fams if f[0] in quick_names] + [f for f in fams if f[0] not in quick_names]
+    if not only or "nesting" in only.split(","):
+        nesting_work(B, rep, tier, samples)
     for name, spec, assume in fams:
         if only and name not in only.split(","):
             continue
@@ -164,6 +213,15 @@ def confirm(B, rep, text, profile, klass, known_text):
 def replay(ctx, path):
     import json
     rp = json.load(open(path))["replay"]
+    if "timeout_s" in rp:
+        import subprocess
+        try:
+            ctx.run_native([rp["input"]], "debug", timeout=rp["timeout_s"])
+        except subprocess.TimeoutExpired:
+            print("input of %d bytes: no answer within %d s" % (len(rp["input"]), rp["timeout_s"]))
+            return 1
+        print("input of %d bytes: answered" % len(rp["input"]))
+        return 0
     d = ctx.run_native([rp["input"]], "debug")[0]
     r = ctx.run_native([rp["input"]], "release")[0]
     print("input=%r debug: %s %s | release: %s %s" % (rp["input"], d.get("parse"), d.get("panic", ""), r.get("parse"), r.get("panic", "")))
